@@ -104,10 +104,16 @@ def run(chk: Check) -> None:
         """Returns ('early'|'echo'|'none', exception tag or None) from a real WantEcho object."""
         ctx = FakeCtx(g)
         cmd = Command(cmd_fr)
-        idle = F.IsInIdle(ctx)
-        idle.cmd_sent(cmd, is_retry=False)
-        ctx._state = SimpleNamespace(_sent_cmd=cmd, _echo_pkt=None)
-        st = F.WantEcho(ctx)
+        try:
+            idle = F.IsInIdle(ctx)
+            idle.cmd_sent(cmd, is_retry=False)
+            ctx._state = SimpleNamespace(_sent_cmd=cmd, _echo_pkt=None)
+            st = F.WantEcho(ctx)
+        except (AttributeError, TypeError):
+            # the state objects want more of their context than this stand-in has (the FSM's internals were rearranged): they
+            # are not driven directly then - the same triples go through the real protocol in section 3
+            chk.count("fsm_state_objects.not_drivable_directly")
+            return None
         ctx.calls.clear()
         pkt = mk_pkt(pkt_fr)
         if pkt is None:
@@ -131,7 +137,11 @@ def run(chk: Check) -> None:
         if echo is None or pkt is None:
             return None
         ctx._state = SimpleNamespace(_sent_cmd=cmd, _echo_pkt=echo)
-        st = F.WantRply(ctx)
+        try:
+            st = F.WantRply(ctx)
+        except (AttributeError, TypeError):
+            chk.count("fsm_state_objects.not_drivable_directly")
+            return None
         ctx.calls.clear()
         try:
             st.pkt_rcvd(pkt)
@@ -344,7 +354,81 @@ def run(chk: Check) -> None:
                 chk.violation(("protocol.reply_not_recognised:" if wfr else "protocol.echo_not_recognised:") + q[37:41] + ("" if i not in qos.MSG_REJECTED else ".msg-layer-rejects"),
                               f"send_cmd({q!r}, wait_for_reply={wfr}) with the echo and the reply {reply!r} delivered ended with {got[1]} {got[2][:90]!r}, "
                               f"not with {'the reply' if wfr else 'the echo'}", {"op": "protocol", "episode": ep.to_json()})
+    # ---- 3b. two gateways in one process send at the same moment (default QoS, each returning on its echo; the two echoes
+    #          arrive in the same pass of the loop): each caller is handed the echo of its own command
+    two_protocols(chk)
     D.run()
+
+
+def two_protocols(chk: Check) -> None:
+    import asyncio
+
+    from ramses_tx.command import Command
+    from ramses_tx.packet import Packet
+    from ramses_tx.protocol import protocol_factory
+
+    from .. import qos, vloop
+
+    pairs = [(0, 3), (1, 4), (3, 8), (0, 1), (2, 0)]
+    for ia, ib in pairs:
+        for skew in (0.0, 0.0, 1e-9, 0.005):
+            out: dict = {}
+
+            async def main(loop, ia=ia, ib=ib, skew=skew):
+                qos.VClockDt._loop = loop
+                qos.VClockDt._n = 0
+                protos = {}
+
+                def mk(name, gwy_id):
+                    class T:
+                        closing = False
+
+                        def get_extra_info(self, k, default=None):
+                            return {"active_gwy": gwy_id, "is_evofw3": True}.get(k, default)
+
+                        def _dt_now(self):
+                            return qos.VClockDt.now()
+
+                        def is_closing(self):
+                            return self.closing
+
+                        def close(self):
+                            self.closing = True
+
+                        async def write_frame(self, frame, disable_tx_limits=False):
+                            pkt = Packet.from_port(qos.VClockDt.now(), "000 " + str(frame).replace(qos.HGI, gwy_id))
+                            loop.call_at(loop.time() + 0.02 + (skew if name == "B" else 0.0), protos[name].pkt_received, pkt)
+
+                    pr = protocol_factory(lambda m: None, disable_qos=None)
+                    pr.connection_made(T(), ramses=True)
+                    pr.resume_writing()
+                    protos[name] = pr
+                    return pr
+
+                pa, pb = mk("A", qos.GWY), mk("B", "18:111111")
+
+                async def send(name, pr, i):
+                    try:
+                        pkt = await pr.send_cmd(Command(qos.POOL[i][0]))
+                        out[name] = ("ok", str(pkt))
+                    except Exception as e:  # noqa: BLE001
+                        out[name] = ("err", type(e).__name__)
+
+                await asyncio.wait([loop.create_task(send("A", pa, ia)), loop.create_task(send("B", pb, ib))], timeout=60)
+
+            try:
+                vloop.run(main)
+            except Exception as e:  # noqa: BLE001
+                out["rig"] = ("err", repr(e))
+            chk.evaluations += 1
+            chk.nontrivial.add(("two-protocols", ia, ib, skew))
+            for name, i, gid in (("A", ia, qos.GWY), ("B", ib, "18:111111")):
+                want = qos.POOL[i][0].replace(qos.HGI, gid)
+                got = out.get(name, ("none", ""))
+                if got[0] != "ok" or want not in got[1]:
+                    chk.violation("protocol.two_gateways.echo_of_another:" + name, f"gateway {name} sent {qos.POOL[i][0]!r} while another gateway of the process sent "
+                                  f"{qos.POOL[ib if name == 'A' else ia][0]!r}; its send_cmd ended with {got[0]} {got[1][:90]!r}, not with its own echo",
+                                  {"op": "protocol.two", "a": ia, "b": ib, "skew": skew})
 
 
 def replay(chk: Check, path: str) -> int:
